@@ -59,7 +59,15 @@ def do_sign(c):
 def do_verify_one(sig, key, attach, spell=None):
     sig, key = respell(sig, spell), respell(key, spell)
     sm = sig if key is None else {'signature': sig, 'key': key}
+    before = dict(sm) if isinstance(sm, dict) else sm
     try:
+        # the SAME object is verified twice (a stored wallet response checked again): the second verdict is reported
+        try:
+            cip8.verify(sm) if attach is None else cip8.verify(sm, attach_cose_key=attach)
+        except BaseException:
+            pass
+        if sm != before:
+            return ['exc', 'CallerObjectModified', 'verify() changed the message object it was given']
         r = cip8.verify(sm) if attach is None else cip8.verify(sm, attach_cose_key=attach)
     except BaseException as e:                       # AssertionError, nacl/cryptography errors, ...
         if isinstance(e, (KeyboardInterrupt, SystemExit)):
